@@ -74,11 +74,11 @@ theorem intStr_lit (i : Int) : (intStr i).all litChar = true := by
   · simp only [List.all_cons, natDigits_lit, Bool.and_true]; decide
   · exact natDigits_lit _
 
-/-! ### `litOK`: float leaves carry an opaque repr; it must consist of literal characters (true of every Python
-    float repr: digits, `.`, `e`, `+`, `-`, `inf`, `nan`) -/
+/-! ### `litOK`: float leaves carry an opaque repr; it must be non-empty and consist of literal characters (true of
+    every Python float repr: digits, `.`, `e`, `+`, `-`, `inf`, `nan`) -/
 
 def Scalar.litOK : Scalar → Bool
-  | .float r => r.all litChar
+  | .float r => r.all litChar && !r.isEmpty
   | _ => true
 
 mutual
@@ -228,7 +228,9 @@ theorem closedT_scalar (s : Scalar) (h : Scalar.litOK s = true) : ClosedT (scala
   | null => exact closedT_lit _ (by decide)
   | bool b => cases b <;> exact closedT_lit _ (by decide)
   | int i => exact closedT_lit _ (intStr_lit i)
-  | float r => exact closedT_lit _ (by simpa [Scalar.litOK, scalarText] using h)
+  | float r =>
+    simp only [Scalar.litOK, Bool.and_eq_true] at h
+    exact closedT_lit _ (by simpa [scalarText] using h.1)
   | str s => exact closedT_quote s
 
 /-- every tree (with well-formed float reprs) prints as a complete value -/
